@@ -25,7 +25,7 @@ RULE = ("Hypothesis-generated writer programs (sessions x modes x chunk configs 
         "calls); non-trivial = a non-scalar feature written with >=2 calls of which one "
         "crosses an HDF5 chunk boundary, or >=2 appends to one log, or a writer "
         "re-open/mode change between feature calls; distinct = sha1 of the spec")
-BUDGET = {"quick": 640, "thorough": 20000}
+BUDGET = {"quick": 1920, "thorough": 30000}
 ESSENTIAL = ["mode:append", "mode:replace", "mode:reset", "kind:image",
              "kind:contour", "kind:trace", "kind:mask", "kind:usershaped",
              "chunk-crossing-call", "log-append", "table", "reopen",
